@@ -18,9 +18,10 @@ TRUSTED = ["pyserial behaviour = fake port", "the conforming legacy board: data 
 ASSUMPTIONS = ["ASCII replies; faults are SerialException"]
 
 QUERIES = ["QB\r", "QS\r", "QC\r", "QP\r", "QL\r", "QT\r", "QE\r", "QR\r", "PI,E,0\r", "V\r", "v\r", "QM\r", "QG\r", "I\r", "A\r", "MR\r", " qg \r", "PI,C,1\r", "i,2\r",
-           "QT{}\r", "QL,{0}\r", "Q%s\r", " " * 66 + "qg\r", "QL," + "0" * 64 + "1\r"]               # text that a logging/formatting layer could mistake for a template
+           "QT{}\r", "QL,{0}\r", "Q%s\r", " " * 66 + "qg\r", "QL," + "0" * 64 + "1\r",
+           "\r", "?\r", ",1\r", "  \r"]               # texts without a leading name (a bare CR flushes a half-typed command): written once like any other               # text that a logging/formatting layer could mistake for a template
 COMMANDS = ["EM,1,1\r", "SP,1\r", "SM,10,0,0\r", "TP\r", "RB\r", "SC,4,100\r", "LM,1,2,3,4,5,6\r", "ST,{AxiDraw}\r", "SM,{0},1\r", "ST,100%d\r", "SL,{\r", "ST,}x{\r",
-            "LM,2147483647,-2147483648,2147483647,2147483647,-2147483648,2147483647,3\r", "SM,16777215,-2147483648,2147483647\r"]      # requests longer than one 64-byte USB packet
+            "LM,2147483647,-2147483648,2147483647,2147483647,-2147483648,2147483647,3\r", "SM,16777215,-2147483648,2147483647\r", "\r", "?\r", ",1\r"]      # requests longer than one 64-byte USB packet
 NOOK = ["a", "i", "mr", "pi", "qm", "qg", "v"]
 
 def _reply(rng, kind, text, k):
